@@ -87,7 +87,8 @@ _HOSTS = ['example.com', 'EXAMPLE.Com', 'b\xfccher.example', 'xn--bcher-kva.exam
           '0300.0250.0.01', '\uff10\uff587F.0.0.1', '\uff10177.0.0.1', '\uff12130706433', '0x7f.0.0\uff0e1', '[FE80::1%ETH0]', '[fe80::1%25eth0]',
           'WWW.b\xfccher.example', 'WWW\u3002EXAMPLE\u3002COM', '0XC0\u30020X00\u30020X02\u30020XEB', 'B\xdcCHER.Example']
 _USERINFO = ['', 'user@', 'User:Pass@', 'u%40x:p%3Aq@', '%2541@', 'u:%25%34%31@', ':p@', 'a b@', 'u%00@', 'user%0A@', 'u:pw%0A@', 'u%0D:p@', 'u%09@', '%0Au@', 'u:p%20@']
-_SEGS = ['a', '.', '..', '', '%2e', '%2E', '%2F', '%7e', '~', ' ', '\xe9', '%C3%A9', 'a%2fb', '%', '%zz', 'A', '%41', 'a;b', '+']
+_SEGS = ['a', '.', '..', '', '%2e', '%2E', '%2F', '%7e', '~', ' ', '\xe9', '%C3%A9', 'a%2fb', '%', '%zz', 'A', '%41', 'a;b', '+',
+         'a\\..\\b', '\\', 'dir\\\\file', '..\\', '\\.']
 _QUERIES = ['', '?', '?a=b', '?a b', '?a+b', '?%2f%2F', '?\xe9', '?a=1#f', '#frag', '?a=1&a=2', '?%', '?q=a%20b']
 _PORTS = ['', ':80', ':443', ':21', ':8080', ':0080', ':65535', ':']
 
